@@ -15,10 +15,10 @@ number of sessions, any names, any interleaving (`Reach`), by induction over ste
 
   * `refs_eq_users`            waiters(entry) = number of sessions between "take reference" and
                                "drop reference" – exactly, since a failed TryLock gives its
-                               reference back (`fix:` commit FIXL; before it: `refs_eq_users_leaky`,
+                               reference back (`fix:` commit 114f7bfc; before it: `refs_eq_users_leaky`,
                                with one reference left behind per failed TryLock);
   * `map_empty_when_idle`      when no session is using the locker the map is empty: nothing is
-                               left behind, whatever happened before (false before FIXL:
+                               left behind, whatever happened before (false before 114f7bfc:
                                `failed_trylock_leaves_entry_witness`);
   * `user_finds_its_entry`     whoever has taken a reference under a name still finds, under that
                                name, the very `lockCtr` it points to – an entry in use is never
@@ -60,7 +60,7 @@ theorem refs_eq_users (n : Nat) (s : State) (hr : Reach .current (State.init n) 
   rw [(ht k o hm).1] at this
   simpa using this
 
-/-- the same for the code before FIXL: one reference stays behind for every `TryLock` that failed
+/-- the same for the code before 114f7bfc: one reference stays behind for every `TryLock` that failed
     on the entry -/
 theorem refs_eq_users_leaky (n : Nat) (s : State) (hr : Reach .leakyTry (State.init n) s) (k o : Nat)
     (hm : s.map k = some o) : (s.heap o).refs = users s o + (s.heap o).leaked :=
@@ -174,7 +174,7 @@ example :
               [.none, .acquired, .none, .released, .none, .tryOk, .released, .acquired, .released]) := by
   decide +kernel
 
-/-- **Before FIXL `map_empty_when_idle` was false** (switch-off witness, evaluated): a FAILED
+/-- **Before 114f7bfc `map_empty_when_idle` was false** (switch-off witness, evaluated): a FAILED
     `TryLock` left its reference behind – after holder and try-locker are both done the entry is
     still in the map with `waiters = 1` and no user, for the life of the process (names that are
     only ever try-locked, the snapshot and housekeeping keys, never lose their entry). -/
